@@ -73,6 +73,9 @@ type ShipConnection struct {
 
 	// serialises the user's decisions on a pending request (approve, deny)
 	pendingDecisionMux sync.Mutex
+
+	// serialises the handling of the messages of the remote service and of handshake timer expiries
+	inputMux sync.Mutex
 }
 
 var _ api.ShipConnectionInterface = (*ShipConnection)(nil)
@@ -280,7 +283,9 @@ func (c *ShipConnection) processBufferedSpineMessages() {
 func (c *ShipConnection) HandleIncomingWebsocketMessage(message []byte) {
 	// Check if this is a SHIP SME or SPINE message
 	if !c.hasSpineDatagram(message) {
+		c.inputMux.Lock()
 		c.handleShipMessage(false, message)
+		c.inputMux.Unlock()
 		return
 	}
 
